@@ -463,29 +463,36 @@ Proof.
     assert (LA4 : forall x k, la s4 x k <-> la s3 x k) by (intros; apply la_ext; subst s4; unfold estage; xs; reflexivity).
     assert (AJ4 : all_jobs s4 = all_jobs s3) by (subst s4; unfold all_jobs; xs; reflexivity).
     assert (M4 : masters s4 = 0%nat) by (subst s4; unfold masters, all_jobs in *; xs; auto).
-    apply own_parse_ok; auto.
-    + eapply inv_view; [|exact I3]. subst s4. view_tac.
-    + subst s4. unfold nparse in *. xs. auto.
-    + subst s4. xs. rewrite PB3. exact NB.
-    + subst s4. xs. rewrite PB3. reflexivity.
-    + replace (x_order_q s4) with (x_order_q s3) by (subst s4; xs; reflexivity). rewrite AJ4.
-      destruct OP3 as [A B C D E F G K].
-      constructor; try (subst s4; xs; auto; fail).
-      * intros h Hh. destruct (A h Hh) as [[_ MS]|L]; [exfalso; exact (no_masters_mastered s3 _ M3 MS)|right; apply LA4; auto].
-      * intros o Ho S. apply LA4. apply B; auto.
-      * intros j Hj J. exfalso. replace (x_unords s4) with (x_unords s3) in J by (subst s4; xs; reflexivity).
-        rewrite (no_masters_jm s3 j M3 Hj) in J. discriminate.
-      * intros u Hu Qu Cu. replace (x_parser_bs s4) with (x_parser_bs s3) by (subst s4; xs; reflexivity).
-        destruct (E u Hu Qu Cu) as [L|L]; [left; apply LA4; auto|right; auto].
-      * intros _. subst s4. xs. rewrite PB3. lia.
-    + replace (x_order_q s4) with (x_order_q s3) by (subst s4; xs; reflexivity). apply OS3.
-    + replace (x_order_q s4) with (x_order_q s3) by (subst s4; xs; reflexivity). rewrite OQ3.
-      replace (x_parser_bs s4) with b by (subst s4; xs; auto). exact LTP.
-    + replace (x_parser_bs s4) with b by (subst s4; xs; auto).
-      intros u Hu Qu Cu. replace (x_unords s4) with (x_unords s3) in Hu by (subst s4; xs; reflexivity).
+    assert (V4 : view_eq s3 s4) by (subst s4; constructor; xs; auto; intros; reflexivity).
+    assert (I4 : inv s4) by (eapply inv_view; [exact V4|exact I3]).
+    assert (N4 : nparse s4 = 0%nat) by (subst s4; unfold nparse in *; xs; auto).
+    assert (T4 : x_parse_token s4 = false) by (subst s4; xs; auto).
+    assert (PD4 : x_parsing_done s4 = false) by (subst s4; xs; auto).
+    assert (PB4 : x_parser_bs s4 = b) by (subst s4; xs; auto).
+    assert (NB4 : dbs_norm (x_parser_bs s4) = true) by (rewrite PB4; exact NB).
+    assert (NX4 : x_next s4 = d_bit (x_parser_bs s4)) by (rewrite PB4; subst s4; xs; reflexivity).
+    assert (OQ4 : x_order_q s4 = x_order_q s3) by (subst s4; xs; reflexivity).
+    assert (US4 : x_unords s4 = x_unords s3) by (subst s4; xs; reflexivity).
+    assert (OW4 : ownp (x_order_q s4) (all_jobs s4) s4).
+    { rewrite OQ4, AJ4. destruct OP3 as [A B C D E F G K].
+      constructor; rewrite ?US4, ?PB4, ?PD4.
+      - intros h Hh. destruct (A h Hh) as [[_ MS]|L]; [exfalso; exact (no_masters_mastered s3 _ M3 MS)|right; apply LA4; auto].
+      - intros o Ho S. apply LA4. apply B; auto.
+      - intros j Hj J. exfalso. rewrite (no_masters_jm s3 j M3 Hj) in J. discriminate.
+      - exact D.
+      - intros u Hu Qu Cu. rewrite <- PB3. destruct (E u Hu Qu Cu) as [L|L]; [left; apply LA4; auto|right; auto].
+      - discriminate.
+      - intros _. rewrite NX4, PB4. lia.
+      - intros _. exact OKB. }
+    assert (SRT4 : StronglySorted N.lt (map hb (x_order_q s4))) by (rewrite OQ4; apply OS3).
+    assert (LTP4 : Forall (fun h => hb h < d_bit (x_parser_bs s4)) (x_order_q s4)) by (rewrite OQ4, OQ3, PB4; exact LTP).
+    assert (ORB4 : forall u, In u (x_unords s4) -> u_inq u = true -> u_complete u = true ->
+                     la s4 (fst (u_base u)) 0 \/ fst (u_base u) < d_bit (x_parser_bs s4)).
+    { rewrite PB4, US4. intros u Hu Qu Cu.
       assert (X : la s3 (fst (u_base u)) 0 \/ fst (u_base u) < d_bit b).
       { apply (ORPH (d_bit b)); auto.
         - unfold dbs_norm in NB. lia.
         - intros u0 H0 Q0 C0. destruct (o_u2 _ _ _ OP2 u0 H0 Q0 C0) as [L|L]; auto. right. lia. }
-      destruct X as [L|L]; [left; apply LA4; auto|right; auto].
+      destruct X as [L|L]; [left; apply LA4; auto|right; auto]. }
+    exact (own_parse_ok cfg lv crc s4 CA I4 M4 N4 T4 PD4 NB4 NX4 OW4 SRT4 LTP4 ORB4).
 Qed.
